@@ -933,7 +933,7 @@ def complexOf (P : Prims) (d : V) : Outcome V :=
   | .float _ f => .ok (.complex (normZ f) (.fin 0 0))
   | .int _ i => if i == 0 then .ok (.complex (.fin 0 0) (.fin 0 0)) else P.complexOf d
   | .bool b => if b then P.complexOf d else .ok (.complex (.fin 0 0) (.fin 0 0))
-  | .dec _ (.fin s c e) => if c == 0 then .ok (.complex (.fin 0 0) (.fin 0 0)) else P.complexOf d
+  | .dec _ (.fin _ c _) => if c == 0 then .ok (.complex (.fin 0 0) (.fin 0 0)) else P.complexOf d
   | .str _ s => if s == "" then .perr .valueError else P.complexOf d
   | _ => P.complexOf d
 
